@@ -1231,6 +1231,8 @@ def l2_no_shared_blocking_state(C, rep, rid):
             continue                          # a borrow of a cell that lives elsewhere
         if shape in known:
             continue                          # another handle to / the new home of a known cell (C20-C counts the cells)
+        if re.match(r"^tokio::sync::(mpsc::(Unbounded)?Receiver|oneshot::Receiver)<", shape):
+            continue                          # the single-owner receiving end, moved into the struct that runs the loop (`Poller { shutdown, .. }`); the channel is counted at its Sender
         rep.ob(rid, False, name, "no new shared mutable state", detail="%s::%s: %s is a piece of shared mutable state the properties do not account for (a cache / memo / counter / pool / second cell): requests that must be handled independently can influence each other through it" % (name, fn_, shape))
     rep.anchor(rid, "fields with interior mutability / channel ends in the crate's types", len(inv), 8)
     acq = [c for b in F.code_bodies() for c in b.calls if re.match(r"^tokio::sync::Semaphore::(acquire|acquire_owned|acquire_many|acquire_many_owned|try_acquire|try_acquire_owned)$", c.name) and not c.noise]
